@@ -131,3 +131,59 @@ def check_C02(ctx):
                             "(2..7 nodes, links incl. cycles, shared children, dangling links, literals mid-path); a case is non-trivial when the path reaches >=1 value")
     ctx.assumptions += ["Rego evaluation of nested_nodes/search_subjects/nodes_array (OPA) is modelled by stepItems"]
     return conclude(ctx, broken, trusted=TRUST_COMMON)
+
+
+# ------------------------------------------------------------------ C01
+
+C01_THEOREMS = ["Acv.C01.compile_correct", "Acv.C01.dispatch_nonempty", "Acv.C01.spelling_independent",
+                "Acv.C01.and_operand_order", "Acv.C01.or_operand_order", "Acv.C01.and_flatten", "Acv.C01.or_flatten",
+                "Acv.C01.double_negation", "Acv.C01.de_morgan_and", "Acv.C01.de_morgan_or", "Acv.C01.contraposition",
+                "Acv.C01.ite_as_implications", "Acv.C01.cond_as_or", "Acv.C01.nested_is_forall",
+                "Acv.C01.atLeast_counts", "Acv.C01.atMost_counts", "Acv.C01.graphEnv_classical",
+                "Acv.C01.reported_iff", "Acv.C01.old_negated_ite_wrong", "Acv.C01.improper_misjudged"]
+
+
+def cmp_c01(case, i, m):
+    if "error" in m:
+        return ("model-error", "model driver rejected the case: " + m["error"])
+    if i.get("outcome") == "timeout":
+        return False    # too slow to evaluate; not counted
+    if i.get("outcome") != "ok":
+        return ("impl-" + str(i.get("outcome")), f"declarative profile: real code gave {i.get('outcome')}: {str(i.get('err'))[:300]}")
+    real = i["reported"]
+    classical = case["stream"] in ("tt", "graphcount")
+    if classical and m["reported"] != m["implReported"]:
+        return ("model-self", "DNF model and classical meaning disagree on a classical case (compile_correct contradicted?)")
+    if classical and real != m["reported"]:
+        extra = sorted(set(real) - set(m["reported"]))[:4]
+        missing = sorted(set(m["reported"]) - set(real))[:4]
+        return ("verdict", f"{case['stream']}: reported set differs from 'target and not formula': wrongly reported {extra}, not reported {missing}")
+    if real != m["implReported"]:
+        extra = sorted(set(real) - set(m["implReported"]))[:4]
+        missing = sorted(set(m["implReported"]) - set(real))[:4]
+        return ("correspondence", f"{case['stream']}: real verdicts differ from the translator model: only real {extra}, only model {missing}")
+    return None
+
+
+def check_C01(ctx):
+    broken = []
+    try:
+        build_harness()
+    except Broken as b:
+        return conclude(ctx, [b])
+    broken += prove(ctx, "Acv.Props.C01", C01_THEOREMS)
+    q = ctx.quick()
+    plan = [("tt", 260 if q else 6000), ("graphcount", 120 if q else 3000), ("atoms", 120 if q else 3000), ("graph", 100 if q else 3000)]
+    try:
+        for k, (stream, n) in enumerate(plan):
+            before = len(ctx.violations)
+            corr(ctx, "c01", n, cmp_c01, seed_offset=k, extra=(stream,), label="c01/" + stream)
+            ctx.oblige(f"correspondence:c01/{stream}", len(ctx.violations) == before)
+    except Broken as b:
+        broken.append(b)
+    ctx.coverage["rule"] = ("tt: random formulas (and/or/not/if/then/else, depth<=6, width<=4) over k<=5 classical atoms, graph = one target node per truth assignment (whole truth table per validation); "
+                            "graphcount: random graphs, cardinality atoms over random paths, nested/atLeast/atMost/exactly; atoms: every atom kind alone and negated; graph: all atom kinds mixed. "
+                            "non-trivial = at least one node reported")
+    ctx.assumptions += ["per-atom Rego snippets are modelled by Atom.fails (tied by the atoms stream)",
+                        "per-value atoms (in, pattern, lengths, numeric, datatype, property comparisons) are classical only on single-valued properties; on other graphs the check compares with the literal translator model (stream graph)"]
+    return conclude(ctx, broken, trusted=TRUST_COMMON)
